@@ -171,6 +171,9 @@ func (fr *Frame) callVals1(c *ssa.CallCommon, fv *Val, args []*Val, argVals []ss
 	}
 	fc := vc.eng.contractOf(callee)
 	inModule := vc.eng.inModule(callee)
+	if inModule && vc.lemma == nil {
+		fr.checkCallLocks(callee, args, pos)
+	}
 	if vc.lemma != nil && vc.lemma.InlineAll && inModule && len(callee.Blocks) > 0 && fr.depth < maxInlineDepth && !fr.onStack(callee) {
 		if p := pkgOf(callee); p != nil && p.Pkg.Path() == vc.lemma.PkgPath {
 			return fr.inline(callee, args, fv, rt, pos)
